@@ -57,7 +57,7 @@ pub fn consistent_state(rng: &mut Rng, attrs: &DifficultyAttributes, lazer_non_c
             st.n100 = p[1];
             st.n50 = p[2];
             st.misses = p[3];
-            st.max_combo = rng.below(u64::from(a.max_combo) + 1) as u32;
+            st.max_combo = low_or_any(rng, a.max_combo);
             if style == 0 {
                 st.max_combo = a.max_combo;
             }
@@ -75,7 +75,7 @@ pub fn consistent_state(rng: &mut Rng, attrs: &DifficultyAttributes, lazer_non_c
             st.n300 = p[0];
             st.n100 = p[1];
             st.misses = p[2];
-            st.max_combo = rng.below(u64::from(a.max_combo) + 1) as u32;
+            st.max_combo = low_or_any(rng, a.max_combo - p[2]);
             if style == 0 {
                 st.max_combo = a.max_combo;
             }
@@ -94,7 +94,7 @@ pub fn consistent_state(rng: &mut Rng, attrs: &DifficultyAttributes, lazer_non_c
             st.n50 = t;
             st.n_katu = a.n_tiny_droplets - t;
             st.misses = a.n_fruits + a.n_droplets - f - d;
-            st.max_combo = rng.below(u64::from(a.max_combo()) + 1) as u32;
+            st.max_combo = low_or_any(rng, (f + d).min(a.max_combo()));
             if style == 0 {
                 st.max_combo = a.max_combo();
             }
@@ -111,6 +111,15 @@ pub fn consistent_state(rng: &mut Rng, attrs: &DifficultyAttributes, lazer_non_c
         }
     }
     st
+}
+
+/// A combo in `0..=max`: half of the time one of the smallest values (0, 1, 2, ..5), otherwise uniform.
+fn low_or_any(rng: &mut Rng, max: u32) -> u32 {
+    if rng.chance(0.5) {
+        (rng.below(6) as u32).min(max)
+    } else {
+        rng.below(u64::from(max) + 1) as u32
+    }
 }
 
 fn accuracy_of(st: &ScoreState, attrs: &DifficultyAttributes, lazer: bool, classic: bool) -> f64 {
@@ -170,10 +179,23 @@ pub fn case(ctx: &mut Ctx, idx: u64) {
             ..Mix::default()
         },
     };
-    let Some((mc, map)) = gen::gen_domain_map(&mut rng, &mx, Domain::Realistic) else {
+    // one case in 150: a long plain map - the length bonuses of the performance calculators only open beyond 1 500 - 2 500 hits
+    let long = rng.below(150) == 0;
+    let generated = if long {
+        let file_mode = *rng.pick(&[0u8, 0, 1, 2, 2, 3]);
+        let f = crate::osu::long_file(&mut rng, file_mode);
+        let text = f.render();
+        crate::maps::decode(&text).map(|m| (gen::MapCase { text, tag: "long".into() }, m))
+    } else {
+        gen::gen_domain_map(&mut rng, &mx, Domain::Realistic)
+    };
+    let Some((mc, map)) = generated else {
         ctx.count("skipped_no_domain_map");
         return;
     };
+    if long {
+        ctx.count("class:long-map(>=1500 objects)");
+    }
     let mode = gen::pick_mode(&mut rng, &map);
     let mname = mode_name(mode);
     let mut spec = sets::gen_setspec(&mut rng, mode, SetDomain::Game);
@@ -187,6 +209,9 @@ pub fn case(ctx: &mut Ctx, idx: u64) {
     let mut prefixes: Vec<Option<u32>> = vec![None, Some(0), Some(1), Some(2)];
     for _ in 0..4 {
         prefixes.push(Some(rng.below(u64::from(n_obj) * 3 + 2) as u32));
+    }
+    if long {
+        prefixes = vec![None, Some(0), Some(n_obj / 2 + rng.below(u64::from(n_obj)) as u32)];
     }
     ctx.count(&format!("mode:{mname}"));
     if map.hit_objects.is_empty() {
